@@ -94,6 +94,15 @@ impl SubscriptionActor {
         delegate: SubscriptionManagerDelegate,
     ) -> mpsc::Sender<SubscriptionRequest> {
         let (sender, mut receiver) = mpsc::channel(16);
+        #[cfg(deltio_verif)]
+        let (sender, mut receiver) = {
+            drop::<(mpsc::Sender<SubscriptionRequest>, mpsc::Receiver<SubscriptionRequest>)>((sender, receiver));
+            let capacity = crate::verif::capacity(16);
+            crate::verif::emit("s.start", |_| {
+                serde_json::json!({"si": internal_id, "cap": capacity, "name": info.name.to_string()})
+            });
+            mpsc::channel(capacity)
+        };
 
         // If push is configured, register it with the push registry.
         if info.push_config.is_some() {
@@ -115,14 +124,31 @@ impl SubscriptionActor {
 
         tokio::spawn(async move {
             let deleted = actor.observer.deleted();
+            #[cfg(deltio_verif)]
+            let verif_si = actor.internal_id;
             let poll = async {
                 loop {
                     tokio::select! {
                         Some(request) = receiver.recv() => {
+                            #[cfg(deltio_verif)]
+                            crate::verif::point("s.turn", actor.internal_id as u64).await;
                             actor.receive(request).await
                         },
                         Some(expired) = actor.outstanding.poll_next_expired() => {
+                            #[cfg(deltio_verif)]
+                            let verif_acks = expired
+                                .iter()
+                                .map(|p| p.ack_id().verif_value())
+                                .collect::<Vec<_>>();
                             actor.handle_expired_messages(expired);
+                            #[cfg(deltio_verif)]
+                            crate::verif::emit("s.expire", |r| {
+                                serde_json::json!({
+                                    "si": actor.internal_id,
+                                    "acks": verif_acks,
+                                    "st": actor.verif_state(r),
+                                })
+                            });
                         }
                     }
                 }
@@ -132,6 +158,8 @@ impl SubscriptionActor {
                 _ = deleted => (),
                 _ = poll => (),
             }
+            #[cfg(deltio_verif)]
+            crate::verif::emit("s.exit", |_| serde_json::json!({"si": verif_si}));
         });
 
         sender
@@ -141,7 +169,20 @@ impl SubscriptionActor {
     async fn receive(&mut self, request: SubscriptionRequest) {
         match request {
             SubscriptionRequest::PostMessages { messages } => {
+                #[cfg(deltio_verif)]
+                let verif_ids = messages
+                    .iter()
+                    .map(|m| [m.id.value >> 32, m.id.value & 0xffff_ffff])
+                    .collect::<Vec<_>>();
                 self.post_messages(messages);
+                #[cfg(deltio_verif)]
+                crate::verif::emit("s.post", |r| {
+                    serde_json::json!({
+                        "si": self.internal_id,
+                        "ids": verif_ids,
+                        "st": self.verif_state(r),
+                    })
+                });
             }
             SubscriptionRequest::GetInfo { responder } => {
                 let result = self.get_info();
@@ -152,25 +193,86 @@ impl SubscriptionActor {
                 responder,
             } => {
                 let result = self.pull_messages(max_count);
+                #[cfg(deltio_verif)]
+                crate::verif::emit("s.pull", |r| {
+                    serde_json::json!({
+                        "si": self.internal_id,
+                        "max": max_count,
+                        "out": result.as_ref().ok().map(|pulled| {
+                            pulled
+                                .iter()
+                                .map(|p| {
+                                    serde_json::json!({
+                                        "ack": p.ack_id().verif_value(),
+                                        "m": [p.message().id.value >> 32, p.message().id.value & 0xffff_ffff],
+                                        "dl": r.ms(p.deadline().time()),
+                                    })
+                                })
+                                .collect::<Vec<_>>()
+                        }),
+                        "st": self.verif_state(r),
+                    })
+                });
                 let _ = responder.send(result);
             }
             SubscriptionRequest::AcknowledgeMessages { ack_ids, responder } => {
+                #[cfg(deltio_verif)]
+                let verif_acks = ack_ids.iter().map(|a| a.verif_value()).collect::<Vec<_>>();
                 let result = self.acknowledge_messages(ack_ids);
+                #[cfg(deltio_verif)]
+                crate::verif::emit("s.ack", |r| {
+                    serde_json::json!({
+                        "si": self.internal_id,
+                        "acks": verif_acks,
+                        "st": self.verif_state(r),
+                    })
+                });
                 let _ = responder.send(result);
             }
             SubscriptionRequest::ModifyDeadline {
                 deadline_modifications,
                 responder,
             } => {
+                #[cfg(deltio_verif)]
+                let verif_mods = crate::verif::on().then(|| {
+                    deadline_modifications
+                        .iter()
+                        .map(|m| (m.ack_id.verif_value(), m.new_deadline.map(|d| d.time())))
+                        .collect::<Vec<_>>()
+                });
                 let result = self.modify_deadline(deadline_modifications);
+                #[cfg(deltio_verif)]
+                crate::verif::emit("s.mod", |r| {
+                    serde_json::json!({
+                        "si": self.internal_id,
+                        "mods": verif_mods
+                            .unwrap_or_default()
+                            .into_iter()
+                            .map(|(ack, dl)| serde_json::json!({"ack": ack, "dl": dl.map(|d| r.ms(d))}))
+                            .collect::<Vec<_>>(),
+                        "st": self.verif_state(r),
+                    })
+                });
                 let _ = responder.send(result);
             }
             SubscriptionRequest::Delete { responder } => {
                 let result = self.delete().await;
+                #[cfg(deltio_verif)]
+                crate::verif::emit("s.delret", |_| {
+                    serde_json::json!({"si": self.internal_id, "ok": result.is_ok()})
+                });
                 let _ = responder.send(result);
             }
             SubscriptionRequest::GetStats { responder } => {
                 let result = self.get_stats();
+                #[cfg(deltio_verif)]
+                crate::verif::emit("s.stats", |r| {
+                    serde_json::json!({
+                        "si": self.internal_id,
+                        "topic_alive": self.topic.upgrade().is_some(),
+                        "st": self.verif_state(r),
+                    })
+                });
                 let _ = responder.send(result);
             }
         }
@@ -268,6 +370,15 @@ impl SubscriptionActor {
         }
 
         self.deleted = true;
+        #[cfg(deltio_verif)]
+        crate::verif::emit("s.del0", |_| {
+            serde_json::json!({
+                "si": self.internal_id,
+                "topic": self.topic.upgrade().map(|t| t.internal_id),
+            })
+        });
+        #[cfg(deltio_verif)]
+        crate::verif::point("s.del.remove", self.internal_id as u64).await;
 
         // If the topic is still around, remove ourselves from it's list of subscriptions.
         if let Some(topic) = self.topic.upgrade() {
@@ -285,7 +396,11 @@ impl SubscriptionActor {
         self.backlog.clear();
 
         // Unregister the subscription from push.
+        #[cfg(deltio_verif)]
+        crate::verif::sync_point("s.del.registry", self.internal_id as u64);
         self.push_registry.set(self.info.name.clone(), None);
+        #[cfg(deltio_verif)]
+        crate::verif::emit("s.del1", |_| serde_json::json!({"si": self.internal_id}));
 
         Ok(())
     }
@@ -313,6 +428,34 @@ impl SubscriptionActor {
         if !self.backlog.is_empty() {
             self.observer.notify_new_messages_available();
         }
+    }
+}
+
+#[cfg(deltio_verif)]
+impl SubscriptionActor {
+    /// The projection of the actor's state that the verification hooks report.
+    fn verif_state(&self, recorder: &crate::verif::Recorder) -> serde_json::Value {
+        serde_json::json!({
+            "deleted": self.deleted,
+            "backlog": self
+                .backlog
+                .list
+                .iter()
+                .map(|m| [m.id.value >> 32, m.id.value & 0xffff_ffff])
+                .collect::<Vec<_>>(),
+            "lease": self
+                .outstanding
+                .verif_leases()
+                .into_iter()
+                .map(|(ack, id, deadline)| [ack, id >> 32, id & 0xffff_ffff, recorder.ms(deadline)])
+                .collect::<Vec<_>>(),
+            "exp": self
+                .outstanding
+                .verif_expirations()
+                .into_iter()
+                .map(|(deadline, ack)| [recorder.ms(deadline), ack])
+                .collect::<Vec<_>>(),
+        })
     }
 }
 
